@@ -838,6 +838,16 @@ func ruleMailbox(c *Ctx, rule string, names ...string) {
 						case *ssa.Send:
 							return loadOfField(x.Chan, pkg, "Promise", "message")
 						case *ssa.Defer:
+							// a deferred private method that does the put-back (defer p.put(&r))
+							if g := x.Call.StaticCallee(); g != nil && g.Blocks != nil && g.Pkg == fn.Pkg {
+								for _, gb := range g.Blocks {
+									for _, gi := range gb.Instrs {
+										if s, ok := gi.(*ssa.Send); ok && loadOfField(s.Chan, pkg, "Promise", "message") {
+											return true
+										}
+									}
+								}
+							}
 							if mc, ok := x.Call.Value.(*ssa.MakeClosure); ok {
 								if cf, ok := mc.Fn.(*ssa.Function); ok {
 									for _, cb := range cf.Blocks {
